@@ -180,7 +180,12 @@ class Ctx:
         return self.budget_s - (time.monotonic() - self.t0)
 
     def out_of_time(self):
-        return self.time_left() <= 0
+        if self.time_left() <= 0:
+            if not getattr(self, '_cut_noted', False):
+                self._cut_noted = True
+                self.acc.notes.append(f'shard {self.shard}: time budget hit (budget {self.budget_s:.0f} s)')
+            return True
+        return False
 
     def explained(self, sig):
         return explained_by(self.prop, sig)
